@@ -9,7 +9,15 @@ from .bridge import bridge_crate
 
 CRATE_ATTRS = ('#![feature(allocator_api)]\n#![feature(sized_hierarchy)]\n'
                '#![allow(unused_imports, dead_code, unused_variables, unused_mut, unused_parens, unused_braces, '
-               'unused_assignments, unreachable_code, unused_doc_comments)]\n')
+               'unused_assignments, unreachable_code, unused_doc_comments, unused_macros)]\n'
+               '// `write!` with the three format strings that occur in the Display impls is mapped to external_body\n'
+               '// functions carrying the ASSUMED semantics of `{}` formatting (DESIGN.md section 6); anything else is std::write!\n'
+               'macro_rules! write {\n'
+               '    ($f:expr, "-{}", $a:expr) => { crate::vspec::vf_write_dash($f, &$a) };\n'
+               '    ($f:expr, "{}{}", $a:expr, $b:expr) => { crate::vspec::vf_write2($f, &$a, &$b) };\n'
+               '    ($f:expr, "{}{}{}", $a:expr, $b:expr, $c:expr) => { crate::vspec::vf_write3($f, &$a, &$b, &$c) };\n'
+               '    ($($t:tt)*) => { std::write!($($t)*) };\n'
+               '}\n')
 
 CRATES = {
     'langid': {'dir': 'unic-langid-impl', 'name': 'unic_langid_impl', 'overlay': 'contracts/verus/langid.overlay'},
